@@ -26,7 +26,15 @@ type scenarioSpec struct {
 	PreMax   int         `json:"pre_max"` // sends per sender at most while the script is still running
 	Post     int         `json:"post"`    // sends per sender after the script has been carried out
 	Big      int         `json:"big,omitempty"`
-	Seed     uint64      `json:"seed"`
+	// BigAll: every pack of the senders carries a text of about that many bytes (frames larger
+	// than the client's 2 MiB buffered writer go straight to the socket inside send())
+	BigAll int `json:"big_all,omitempty"`
+	// Reconfig (queue mode): the consumer is stalled (its first makeData blocks) while the senders
+	// build a backlog; then the queue capacity is set to each of these values in turn
+	// (Queue.SetCapacity — what ApplyConfig does for oneway_queue_size), three more packs are handed
+	// after each change, and the consumer is released.  0 = unbounded.
+	Reconfig []int  `json:"reconfig,omitempty"`
+	Seed     uint64 `json:"seed"`
 }
 
 type observation struct {
@@ -52,6 +60,8 @@ type scen struct {
 	pan   []string
 	nOk   int64
 	nMade int64
+	gate  chan struct{} // non-nil: the consumer's makeData blocks until it is closed
+	gated int32
 }
 
 func (sc *scen) backlog() int64 { return atomic.LoadInt64(&sc.nOk) - atomic.LoadInt64(&sc.nMade) }
@@ -73,7 +83,13 @@ func (sc *scen) doSend(r *vh.Rng, sender, seq, big int) *sendRec {
 	sc.sends = append(sc.sends, rec)
 	sc.mu.Unlock()
 	var made int64
-	p := &tpack{TextPack: tp, onWrite: func() { atomic.StoreInt64(&made, sc.clk.tick()); atomic.AddInt64(&sc.nMade, 1) }}
+	p := &tpack{TextPack: tp, onWrite: func() {
+		if g := sc.gate; g != nil {
+			<-g
+		}
+		atomic.StoreInt64(&made, sc.clk.tick())
+		atomic.AddInt64(&sc.nMade, 1)
+	}}
 	var opts []wnet.TcpClientOption
 	if lic != "" {
 		opts = append(opts, wnet.WithLicense(lic))
@@ -172,6 +188,10 @@ func runScenario(spec scenarioSpec) *observation {
 		return obs
 	}
 	sc := &scen{spec: spec, clk: clk, lg: lg, srv: srv}
+	if len(spec.Reconfig) > 0 && spec.Mode == "queue" {
+		sc.gate = make(chan struct{})
+		sc.gated = 1
+	}
 	if len(spec.Script) > 0 && spec.Script[0].RefuseBefore > 0 {
 		srv.startRefusingAtStart()
 	}
@@ -210,7 +230,9 @@ func runScenario(spec scenarioSpec) *observation {
 					return
 				}
 				big := 0
-				if spec.Big > 0 && r.Chance(15) {
+				if spec.BigAll > 0 {
+					big = spec.BigAll + r.Intn(spec.BigAll/4+1)
+				} else if spec.Big > 0 && r.Chance(15) {
 					big = spec.Big/2 + r.Intn(spec.Big/2+1)
 				}
 				rec := sc.doSend(r, sender, seq, big)
@@ -224,7 +246,7 @@ func runScenario(spec scenarioSpec) *observation {
 					// keep the consumer fed without flooding the queue (it sleeps 1.6 s whenever it finds the queue empty)
 					if rec.Class == "enqueue" {
 						time.Sleep(10 * time.Millisecond)
-					} else {
+					} else if atomic.LoadInt32(&sc.gated) == 0 {
 						for w := 0; w < 50 && sc.backlog() > 32; w++ {
 							time.Sleep(2 * time.Millisecond)
 						}
@@ -234,6 +256,21 @@ func runScenario(spec scenarioSpec) *observation {
 		}(s, r)
 	}
 	wg.Wait()
+
+	if sc.gate != nil {
+		// reconfigure under the backlog, hand a few more packs after each change, release the consumer
+		rr := root.Fork()
+		seq := 0
+		for _, capv := range spec.Reconfig {
+			sc.c.Queue.SetCapacity(capv)
+			for k := 0; k < 3; k++ {
+				sc.doSend(rr, spec.Senders+1, seq, 0)
+				seq++
+			}
+		}
+		atomic.StoreInt32(&sc.gated, 0)
+		close(sc.gate)
+	}
 
 	// closer: sentinel sends until one has demonstrably arrived (recovery), at most 6
 	r := root.Fork()
